@@ -193,7 +193,8 @@ def _aux_desc(draw):
         'box': draw(_box),
         'boxkind': draw(_boxkind),
         'ppd': draw(st.one_of(st.sampled_from([1, 2, 1728, 6912, 32767, 32768 // 2]), st.integers(1, 32767))),
-        'ppdkind': draw(st.sampled_from(['int', 'int', 'float'])),
+        # near-integer floats (NP**(1/3) comes out a few ulp low or high) are documented-accepted: unpack_pids rounds them
+        'ppdkind': draw(st.sampled_from(['int', 'int', 'float', 'below', 'above', 'cbrt', 'npint32', 'npfloat32', 'npfloat64'])),
         'dtype': draw(_dtype),
         'flags': flags,
         'api': api,
@@ -209,6 +210,30 @@ def _aux_desc(draw):
 
 def strategy(tier):
     return st.one_of(_rvint_desc(), _rvint_desc(), _aux_desc(), _aux_desc(), _rt_desc())
+
+
+def _ppdval(ppd, kind, api):
+    """The ppd argument as the caller spells it. The near-integer spellings go to unpack_pids only (it is the layer that rounds);
+    the bare kernel gets the integer value in some numeric type."""
+    if kind == 'int':
+        return ppd
+    if kind == 'float':
+        return float(ppd)
+    if api != 'unpack_pids':
+        return ppd  # the bare kernel is only ever called with the rounded Python int
+    if kind == 'npint32':
+        return np.int32(ppd)
+    if kind == 'npfloat32':
+        return np.float32(ppd)
+    if kind == 'npfloat64':
+        return np.float64(ppd)
+    if kind == 'below':
+        return float(np.nextafter(np.nextafter(float(ppd), 0.0), 0.0))
+    if kind == 'above':
+        return float(np.nextafter(np.nextafter(float(ppd), np.inf), np.inf))
+    if kind == 'cbrt':
+        return float(ppd**3) ** (1.0 / 3.0)
+    raise Reject('unknown ppdkind')
 
 
 # --------------------------------------------------------------------------- bookkeeping
@@ -244,6 +269,7 @@ def classes(d):
     elif m == 'aux':
         c.append('api=' + d['api'])
         c.append('nflags=%d' % len(d['flags']))
+        c.append('ppd=' + d.get('ppdkind', 'int'))
         c.append('n=0' if not d['words'] else 'n>=1')
         if any(((w >> 49) & 1023) == 1023 for w in d['words']):
             c.append('density-saturated')
@@ -543,7 +569,7 @@ def _run_aux(d):
         raise Reject('unknown flag')
     box = _boxval(d['box'], d['boxkind'])
     ppd = int(d['ppd'])
-    ppd_arg = float(ppd) if d['ppdkind'] == 'float' else ppd
+    ppd_arg = _ppdval(ppd, d['ppdkind'], d['api'])
     what = 'n=%d api=%s flags=%s box=%r(%s) ppd=%r %s' % (n, d['api'], flags, d['box'], d['boxkind'], ppd_arg, d['dtype'])
 
     if d['api'] == 'unpack_pids':
